@@ -74,9 +74,7 @@ theorem C02_closure_one_event_at_entry (cfg : Cfg) (sc : String → Bool) (x : S
   simp only [env]
   rw [bind_def_M, show lookup ({ host := PyLite.host, sc := sc, hk := some cfg } : Env PyLite.World PyLite.HState) x st
     = (.ok v, st) from hl]
-  simp only [hon, if_true]
-  rw [bind_def_M]
-  simp only [interactSem, PyLite.host, PyLite.hnd, hno, annValOpt]
-  cases v <;> first | exact absurd rfl hv | simp [pure_def_M]
+  simp only [hon, if_true, interactSem, PyLite.host, PyLite.hnd, hno, annValOpt]
+  cases v <;> first | exact absurd rfl hv | simp
 
 end Ptera.Props.C02
